@@ -711,8 +711,68 @@ def r3d_membership_gate(ctx):
             else:
                 r.violate(key, "`%s.contains_key()` alone decides a branch in %s at %s: closing the document or cache eviction "
                                "changes the answer" % (m, f.id, ctx.bin.span_str(op.call["span"])))
+    # ---- `get` on an evictable map that holds primary data (no stamp to recompute from): the None outcome must fall back
+    #      to the filesystem, as the accessor does; a query that reads the text only from the cache answers differently after
+    #      didClose / eviction
+    caches = stamped_caches(db)
+    ng = 0
+    for m in sorted(evictable - set(caches)):
+        for op in db.ops_by_map.get(m, []):
+            if op.method != "get":
+                continue
+            f = op.fn
+            if f.root not in query_fns and f.id not in query_fns:
+                continue
+            ng += 1
+            key = "R3d-iv|%s|%s.get" % (f.id, m)
+            reads = [bb for bb, c in f.calls() if re.search(r"std::fs::read_to_string", c.get("res") or "")]
+            none_t = _none_target(f, op)
+            korig = db.origins.of_operand(f, op.call["args"][1]) if len(op.call["args"]) > 1 else set()
+            if none_t is not None and any(_reaches_from(f, none_t, rb) for rb in reads):
+                r.ok(sample={"get": key, "fallback": "read_to_string on the None path"})
+            elif korig and all(t[0] == "call" and (t[2] or "").endswith("::uri_to_path") for t in korig):
+                # the request's own document: present in the cache from didOpen to didClose by protocol (eviction of an open
+                # document's text is the stated undecided remainder of C07)
+                r.ok(sample={"get": key, "key": "the request's own document (uri_to_path of the request)"})
+            elif key in REVIEWED:
+                r.review(key, REVIEWED[key])
+            else:
+                r.violate(key, "`%s.get()` in %s at %s has no filesystem fallback on its None path: after didClose / eviction the "
+                               "query answers as if the file did not exist" % (m, f.id, ctx.bin.span_str(op.call["span"])))
+    r.counts["gets_on_unstamped_evictable"] = ng
     r.floor("membership tests on evictable maps in query functions", n, 2)
     return r
+
+
+def _none_target(f, op):
+    """block taken when the Option returned by the map lookup `op` is None (discriminant switch on its destination, followed
+    through moves and `Try::branch` / `map` style pass-throughs is not attempted: direct switch or the `?` desugaring)"""
+    dest = place_local(op.call["dest"])
+    aliases = {dest}
+    for _ in range(4):
+        for bb, si, pl, rv, sp in f.assigns():
+            if isinstance(pl, int) and rv[0] == "use" and op_local(rv[1]) in aliases and not place_projs(op_place(rv[1])):
+                aliases.add(pl)
+    # `?` : <Option<T> as Try>::branch(dest) -> ControlFlow; Break arm = None
+    for bb, c in f.calls():
+        if (c.get("fn") or "").endswith("Try::branch") and c["args"] and op_local(c["args"][0]) in aliases:
+            cf_l = place_local(c["dest"])
+            for b2, b in enumerate(f.blocks):
+                t = b["t"]
+                if t[0] == "switch":
+                    for bb3, si, pl, rv, sp in f.assigns():
+                        if bb3 == b2 and rv[0] == "discr" and place_local(rv[1]) == cf_l and op_local(t[1]) == place_local(pl):
+                            brk = [tg for v, tg in t[2] if v == 1]
+                            return brk[0] if brk else t[3]
+    for b2, b in enumerate(f.blocks):
+        t = b["t"]
+        if t[0] != "switch":
+            continue
+        for st in b["s"]:
+            if st[0] == "=" and st[2][0] == "discr" and place_local(st[2][1]) in aliases and op_local(t[1]) == place_local(st[1]):
+                none = [tg for v, tg in t[2] if v == 0]
+                return none[0] if none else t[3]
+    return None
 
 
 def r3d_stamp_origin(ctx):
@@ -756,11 +816,28 @@ def r3d_stamp_origin(ctx):
 
 
 def _is_content_hash(g):
-    """g feeds a str/String parameter to a Hasher and returns finish()"""
-    feeds = fin = False
-    for _b, c in g.calls():
-        if c.get("fn") == "std::hash::Hash::hash" and any(t in ("str", "std::string::String") for t in c.get("targs", [])[:1]):
-            feeds = True
+    """g feeds its str/String parameter -- the whole of it, on every path -- to a Hasher and returns finish(): no path from
+    entry to finish() avoids a `Hash::hash(<the parameter>)` call"""
+    feeds, fin = set(), []
+    sparams = [i for i in range(1, g.argc + 1) if g.local_ty(i).lstrip("&") in ("str", "std::string::String")]
+    for b, c in g.calls():
+        if c.get("fn") == "std::hash::Hash::hash" and any(t in ("str", "std::string::String") for t in c.get("targs", [])[:1]) \
+                and c["args"] and any(_derives(g, c["args"][0], i) for i in sparams):
+            feeds.add(b)
         if c.get("fn") == "std::hash::Hasher::finish" and place_local(c["dest"]) == 0:
-            fin = True
-    return feeds and fin
+            fin.append(b)
+    if not feeds or not fin:
+        return False
+    # must-pass-through: with the feeding blocks removed, finish() is unreachable from the entry
+    seen, st = {0}, [0]
+    while st:
+        x = st.pop()
+        if x in feeds:
+            continue
+        if x in fin:
+            return False
+        for s2 in g.succs(x):
+            if s2 not in seen:
+                seen.add(s2)
+                st.append(s2)
+    return True
